@@ -43,6 +43,8 @@ var Catalog = []Prog{
 	{"closure-shared", `x := a; inc := func() { x += b }; get := func() { return x }; inc(); inc(); out := get()`, false},
 	{"closure-nested", `f := func(p) { return func(q) { return func(r) { return p*100 + q*10 + r } } }; out := f(a)(b)(3)`, false},
 	{"closure-loop", `fs := []; for i := 0; i < 3; i++ { j := i + a; fs = append(fs, func() { return j }) }; out := fs[0]() + fs[1]()*10 + fs[2]()*100`, false},
+	{"closure-forin-func", `f := func(xs) { fs := []; for k, v in xs { fs = append(fs, func() { return v * 10 + k }) }; r := []; for g in fs { r = append(r, g()) }; return r }; out := f([a, b, 3])`, false},
+	{"closure-for-func", `f := func(n) { fs := []; for i := 0; i < n; i++ { j := i * 2; fs = append(fs, func() { return i + j }) }; r := []; for g in fs { r = append(r, g()) }; return r }; out := f(3) + f(b == 0 ? 1 : 2)`, false},
 	{"closure-param", `f := func(p) { g := func() { p += 1; return p }; g(); return g() + p }; out := f(a)`, false},
 	{"shadowing", `x := a; out := 0; if c { x := b; x += 1; out = x } else { x = x + 2; out = x }; y := x`, false},
 	{"block-scope", `out := a; if true { out := b; out += 1 }; o2 := out; if c { o3 := out + 1; out = o3 }`, false},
